@@ -312,7 +312,7 @@ def scenario(r, big):
     out = []
     for st in s:
         out.append(st)
-        if st["ev"] == "Fetch" and r.random() < 0.5:
+        if st["ev"] == "Fetch" and r.random() < 0.7:
             out.append({"ev": "Fn", "f": "readback", "op": st["op"], "dir": st["dir"]})
         if r.random() < 0.12:
             out.append(fn_step(r, sc))
